@@ -156,14 +156,27 @@ class Interp:
             known = set(names) | {k.arg for k in a.kwonlyargs}
             env[a.kwarg.arg] = {k: v for k, v in args.items()
                                 if isinstance(k, str) and k not in known}
+        is_gen = not isinstance(fnode, ast.Lambda) and any(
+            isinstance(n, (ast.Yield, ast.YieldFrom))
+            for n in model.walk_shallow(fnode))
+        if is_gen:
+            # a generator whose body has no effect the evaluator records:
+            # what it yields, collected at once
+            env['__yields__'] = []
+            before = len(self.trace)
         try:
             if isinstance(fnode, ast.Lambda):
                 return ('return', self.ev(fnode.body, env))
             self.block(model.strip_docstring(fnode.body), env)
         except _Return as r:
-            return ('return', r.v)
+            if not is_gen:
+                return ('return', r.v)
         except _Raise as r:
             return ('raise', r.v)
+        if is_gen:
+            if len(self.trace) != before:
+                raise Unsupported('generator with recorded effects')
+            return ('return', list(env['__yields__']))
         return ('return', None)
 
     # ----------------------------------------------------------- statements
@@ -511,6 +524,13 @@ class Interp:
             return ('attr', base, e.attr)
         if isinstance(e, ast.Call):
             return self.call(e, env)
+        if isinstance(e, ast.Yield) and '__yields__' in env:
+            env['__yields__'].append(
+                self.ev(e.value, env) if e.value is not None else None)
+            return None
+        if isinstance(e, ast.YieldFrom) and '__yields__' in env:
+            env['__yields__'].extend(self.iterate(self.ev(e.value, env)))
+            return None
         if isinstance(e, ast.JoinedStr):
             return Sym('text')
         raise Unsupported('expression ' + type(e).__name__)
@@ -687,6 +707,14 @@ class Interp:
                 if isinstance(r[0], _Raise):
                     raise r[0]
                 return r[0]
+            if name == 'next' and args and hasattr(args[0], '__next__') \
+                    and not isinstance(args[0], (Sym, Obj)):
+                try:
+                    return next(args[0])
+                except StopIteration:
+                    if len(args) == 2:
+                        return args[1]
+                    raise _Raise('StopIteration')
             if name in ('setattr', 'getattr', 'hasattr') and args and \
                     isinstance(args[0], Obj) and isinstance(args[1], str):
                 if name == 'setattr' and len(args) == 3:
